@@ -14,7 +14,7 @@ import itertools
 from checks import ctxcomp as cc
 from checks.ctxcomp import Mod, Feat, Sub, History, Snap
 
-LEAN_TARGETS = ["LyModel.Props.C09"]
+LEAN_TARGETS = ["LyModel.Props.C09", "LyModel.Props.C09Compiled"]
 AUDIT = "Audit/C09.lean"
 GENERATED = ["CtxFacts"]
 ASSUMPTIONS = [
